@@ -261,6 +261,9 @@ def plan_c08(rng, pairs):
             if first:
                 operand_checks(c, k0)
                 first = False
+                # the event list of the base pose (correspondence on the sweep's own bookkeeping: a change
+                # that shows in the result only in some poses usually shows here in every pose)
+                c.run(subdiv_req("f64", "U", False, BUDGET, a, b))
             # power-of-two scaling: bit-identical scaled result
             e = rng.choice([-200, -60, -7, -1, 1, 3, 40, 200])
             f = lambda p: (p[0] * (Fraction(2) ** e) if not isinstance(p[0], float) else math.ldexp(p[0], e),
